@@ -185,9 +185,14 @@ func (o c17Op) String() string {
 		return "List()"
 	case "listscribble":
 		return "List()+caller overwrites and appends to the returned slice"
+	case "rendernested":
+		return fmt.Sprintf("Wrap(text table with its own decoration).SetDecorationNamed(%s)+Render", nm)
 	}
 	return fmt.Sprintf("SetDecorationNamed(%s)+Render", nm)
 }
+
+// c17SeqMenu: the sequential family also renders through a wrapper around another text table
+var c17SeqMenu = append(append([]c17Op{}, c17Menu...), c17Op{"rendernested", 0, 0}, c17Op{"rendernested", 2, 0})
 
 var c17Menu = []c17Op{{"register", 0, 1}, {"register", 0, 2}, {"register", 1, 1}, {"named", 0, 0}, {"named", 2, 0}, {"list", 0, 0}, {"render", 0, 0}, {"render", 2, 0}, {"listscribble", 0, 0}}
 
@@ -212,10 +217,17 @@ func c17Exec(op c17Op, names []string, thread int, clock *int, log *[]regEvent) 
 		}
 		l = append(l, "csv", "html", "json", "markdown")
 		sort.Strings(l)
-	case "render":
+	case "render", "rendernested":
 		tt := texttable.New()
 		tt.AddHeaders("h")
 		tt.AddRowItems("a")
+		if op.kind == "rendernested" {
+			// a wrapper AROUND a text table that has a perfectly good decoration of its own: the name given to the outer
+			// wrapper decides (an unknown name must not fall back to the inner table's decoration)
+			tt.SetDecorationNamed("ascii-simple")
+			tt = texttable.Wrap(tt)
+			ev.op = "render"
+		}
 		_, err := tt.SetDecorationNamed(names[op.name])
 		ev.gotErr = err != nil
 		out, rerr := tt.Render()
@@ -518,11 +530,11 @@ func runC17(x *X) {
 		clock := 0
 		var d []string
 		for i := 0; i < depth; i++ {
-			k := c.Choose(len(c17Menu) + 1)
+			k := c.Choose(len(c17SeqMenu) + 1)
 			if k == 0 {
 				break
 			}
-			op := c17Menu[k-1]
+			op := c17SeqMenu[k-1]
 			d = append(d, op.String())
 			c.Logf("%s", op)
 			c17Exec(op, names, 0, &clock, &log)
@@ -530,7 +542,7 @@ func runC17(x *X) {
 			x.Clause("C17.sequential_model")
 			if ok, why := c17Linearizable(log, names, initial); !ok {
 				tg := []string{"sequential"}
-				if op.kind == "render" {
+				if op.kind == "render" || op.kind == "rendernested" {
 					tg = append(tg, "fails_closed")
 				}
 				x.Fail("C17.sequential_model", tg, "sequential history not explained by a map: %s; ops %v", why, d)
@@ -734,6 +746,9 @@ func c16Body(f c16Format, id int, tmpl *tabular.Cell, out *[]string, yield func(
 	t.AddRow(tabular.NewRow().Add(*tmpl).Add(tabular.NewCell(10 * id)))
 	yield("AddRowItems")
 	t.AddRowItems(tag+"b\nｗｗ line2 "+strings.Repeat(tag, 20), strings.Repeat("\""+tag, 25)) // multi-line, wide, 60- and 75-byte fields
+	// a row obtained from the table (sized for its current 2 columns) and then given one cell more than that
+	yield("AppendNewRow + 3 cells")
+	t.AppendNewRow().Add(tabular.NewCell(tag + "p")).Add(tabular.NewCell(id)).Add(tabular.NewCell(tag + "-third"))
 	var cblog []string
 	yield("RegisterPropertyCallback")
 	if err := t.RegisterPropertyCallback(t, tabular.CB_AT_RENDER_PRECELL, tabular.CB_ON_CELL, &c16CB{&cblog, tag}); err != nil {
